@@ -1,5 +1,5 @@
 From Coq Require Import List Arith ZArith QArith Bool String.
-From BZ Require Import Base.QcInst Model.LinErr.
+From BZ Require Import Base.QcInst Model.LinErr Model.Clip.
 From BZ Require Import Base.PyVal Model.Hull Gen.PyFnHelpers Gen.PyFnGeometric Gen.PyFnTriangle Gen.PyFnTriangleIntersection Corr.Common.
 Import ListNotations.
 
@@ -17,3 +17,6 @@ Definition chk_lin_error (c : list (list Q) * Q * Q) : bool :=
   let '(rows, obs, rel) := c in
   let m := Qcanon.this (lin_error_sq (qcm rows)) in
   Qle_bool (Qabs.Qabs (obs * obs - m)) (rel * m).
+
+(* clip_range: the hand-written loops around the regenerated per-chord update *)
+Definition clip_val (x1 y1 x2 y2 : list Q) : val := clip_range x1 y1 x2 y2.
